@@ -551,7 +551,7 @@ pub fn main(args: Args) {
         run.finish(&[]);
     }
     let corpus = Arc::new(vcommon::corpus::all_veryl());
-    let n = args.budget("cases", 2500, 40_000);
+    let n = args.budget("cases", 2500, 30_000);
     let seed = args.seed;
     let run2 = run.clone();
     let corpus2 = corpus.clone();
